@@ -3,6 +3,7 @@ package streamfilter
 import (
 	internaltypes "lunar/engine/streams/internal-types"
 	publictypes "lunar/engine/streams/public-types"
+	"reflect"
 
 	"github.com/rs/zerolog/log"
 )
@@ -59,8 +60,17 @@ func (node *FilterNode) isStatusCodeQualified(
 		return true
 	}
 
+	// The response walk that follows an early response (a processor of the flow answered the
+	// request itself) runs before any provider response exists: there is no status to compare,
+	// and the flow was already selected for this transaction's request.
+	response := APIStream.GetResponse()
+	if response == nil || reflect.ValueOf(response).IsNil() {
+		log.Trace().Msgf("No response yet, status code not checked for Flow: %s", flow.GetName())
+		return true
+	}
+
 	for _, statusCode := range allowedStatusCodes {
-		if statusCode == APIStream.GetResponse().GetStatus() {
+		if statusCode == response.GetStatus() {
 			log.Trace().Msgf("Status code is qualified for Flow: %s", flow.GetName())
 			return true
 		}
